@@ -52,6 +52,9 @@ def run(prog, chk):
         C07.output_file(prog, chk)  # the output file holds the result and nothing else (no tail of an earlier, longer file after the root's end tag)
     from props import C01
     chk.rule(C01.utf8_boundary, prog, chk)  # output is UTF-8 because every input event was validated (pass-through carries bytes along)
+    from props import C03 as _C03, C17 as _C17
+    chk.rule(_C03.bypass, prog, chk)  # on the pass-through edge nothing of the transformer's own is written (a header in front of the XML declaration is not well-formed)
+    chk.rule(_C17.depth_pairing, prog, chk)  # the top-level test that decides pass-through rests on the depth count: every dispatch counts
 
 
 def attribute_lists_validated(prog, chk):
